@@ -72,10 +72,12 @@ def slice_obligations(ck):
     from nuspacesim.utils import interp as IM
 
     qn = "interp:grid_slice_interp"
-    for ndim, axis in ((2, 0), (3, 1), (3, "c"), (4, 3)):
+    for ndim, axis, shared in ((2, 0, False), (3, 1, False), (3, "c", False), (4, 3, False), (3, 0, True), (3, "c", True)):
         log = []
         names = ["a", "b", "c", "d"][:ndim]
         axes = [Arr("axis_%s" % n, log) for n in names]
+        if shared:
+            axes[2] = axes[0]  # a square grid built with ONE array object for two of its axes: dimensions are positions, not objects
         data = Arr("data", log)
 
         class G(Stub):
@@ -100,7 +102,7 @@ def slice_obligations(ck):
         ps = it.explore(lambda: (IM.grid_slice_interp, [g, v, axis], {}))
         ck.add_functions(it)
         k = names.index(axis) if isinstance(axis, str) else axis
-        tag = "[ndim=%d,axis=%r]" % (ndim, axis)
+        tag = "[ndim=%d,axis=%r%s]" % (ndim, axis, ",one array object for axes 0 and 2" if shared else "")
         if len(ps) != 1 or ps[0].kind != "return":
             o = ck.ob("%s/exec%s" % (qn, tag), "exec")
             o.note = str([(p.kind, str(p.exc)) for p in ps])[:300]
@@ -505,6 +507,26 @@ def bounded_native(ck):
                             except Exception as ex:
                                 fails.append({"obligation": "bounded.slice", "clause": "slicing along an axis stored in descending order succeeds", "input": {"names": names, "axis values": axd[0].tolist()}, "observed": repr(ex)[:160]})
                                 break
+                # a square grid built in memory with ONE array object for two of its axes: the slice drops exactly the sliced dimension
+                if dt is np.float64 and len(names) >= 2 and not _BN.get("shared_done"):
+                    _BN["shared_done"] = True
+                    axs = np.array([1.0, 2.0, 4.0])
+                    cube = np.arange(27, dtype=np.float64).reshape(3, 3, 3) ** 1.5
+                    for sl_axis in (0, "z", 1):
+                        n += 1
+                        try:
+                            gsh = NssGrid(cube, [axs, np.array([10.0, 20.0, 30.0]), axs], ["x", "y", "z"])
+                            kk = {"z": 2}.get(sl_axis, sl_axis)
+                            s_ = grid_slice_interp(gsh, 20.0 if kk == 1 else 2.0, sl_axis)  # the second node of the sliced axis
+                            want_names = [nm_ for j_, nm_ in enumerate(["x", "y", "z"]) if j_ != kk]
+                            ok_ = list(s_.axis_names) == want_names and len(s_.axes) == 2 and np.allclose(np.asarray(s_.data, float), np.take(cube, 1, axis=kk), rtol=1e-12, atol=1e-9)
+                            obs_ = {"axis_names": list(s_.axis_names), "number of axes": len(s_.axes), "data shape": list(np.shape(s_.data))}
+                        except Exception as ex:
+                            ok_, obs_ = False, repr(ex)[:200]
+                        if not ok_:
+                            fails.append({"obligation": "bounded.slice", "clause": "a slice drops exactly the sliced dimension and keeps the others in order, also when one array object serves two axes",
+                                          "input": {"names": ["x", "y", "z"], "axes": "x and z are the same array object [1, 2, 4]", "slice": repr(sl_axis), "value": "second node of that axis"}, "observed": obs_})
+                            break
                 # slices: exact at nodes, blend in between (also for integer grids)
                 k = int(rng.integers(0, len(names)))
                 ax = axes[k].astype(np.float64)
